@@ -186,6 +186,18 @@ let cmd_translate toks =
   | TUnknownName n -> "UNKNOWN " ^ string_of_int (int_of_nat n)
   | TNotANumber -> "NOTANUMBER"
 
+(* ---- C14: c14rate <det|stoch> <n> reactant ids...  ->  the rate expression printed like the f-strings of add_reaction
+        (species i as "s<i>#", the rate constant as "K#") ---- *)
+let rec print_sexpr = function
+  | ERate -> "K#"
+  | ESp s -> "s" ^ string_of_int (int_of_nat s) ^ "#"
+  | EMul (a, b) -> print_sexpr a ^ " * " ^ print_sexpr b
+  | EPowN (a, m) -> print_sexpr a ^ "^" ^ string_of_int (int_of_nat m)
+  | ESubN (a, j) -> "( " ^ print_sexpr a ^ " - " ^ string_of_int (int_of_nat j) ^ " )"
+let cmd_c14rate toks =
+  let (mode, r) = pop toks in let (rs, _) = pop_list pop_nat r in
+  print_sexpr (if mode = "det" then export_det rs else export_stoch rs)
+
 let () =
   try
     while true do
@@ -204,6 +216,7 @@ let () =
           | "delaydraw" -> cmd_delaydraw toks
           | "c15align" -> cmd_c15align toks
           | "teval" -> cmd_teval toks
+          | "c14rate" -> cmd_c14rate toks
           | "translate" -> cmd_translate toks
           | "iface" -> cmd_iface toks
           | _ -> "ERR unknown command " ^ cmd)
